@@ -34,6 +34,11 @@ type Build []Entry
 
 func F(path, content string) Entry { return Entry{Path: path, Kind: "f", Content: content} }
 func D(path string) Entry          { return Entry{Path: path, Kind: "d"} }
+
+// FM is F with explicit permission bits.
+func FM(path, content string, mode uint32) Entry {
+	return Entry{Path: path, Kind: "f", Content: content, Mode: mode}
+}
 func L(path, dest string) Entry    { return Entry{Path: path, Kind: "l", Dest: dest} }
 
 var (
